@@ -3,7 +3,7 @@
    (with the real mergeIntoManifest) on a generated chunk list, against model/Chunks.v;
    the property oracle is the last-writer-wins reference [winner] over the
    generator's own list of leaf data chunks, applied to the implementation's outputs. *)
-From Coq Require Import List NArith Bool.
+From Coq Require Import List NArith ZArith Bool.
 From SW Require Export base.Verdict model.Chunks.
 Import ListNotations.
 Local Open Scope N_scope.
@@ -20,6 +20,11 @@ Definition rd_buf (rc : read_case) : list N := repeat (rd_fill rc) (N.to_nat (rd
 (* StreamContent(chunks, st_off, st_size) wrote st_out (and returned nil) *)
 Record stream_case := St { st_off : N; st_size : N; st_out : list N }.
 
+(* one ChunkStreamReader (NewChunkStreamReaderFromFiler) and the calls made on it, in order *)
+Inductive csr_op := OpRead (n : nat) | OpSeek (off : Z) (whence : N).
+Inductive csr_obs := ObsRead (out : list N) (eof : bool) | ObsSeek (pos : Z) (err : bool) | ObsPanic.
+Record csr_case := Cs { cq_ops : list csr_op; cq_obs : list csr_obs }.
+
 Record case := {
   k_ms : mstore;                  (* content of the manifest chunks of the input *)
   k_chunks : list chunk;          (* entry.Chunks *)
@@ -34,8 +39,13 @@ Record case := {
   i_views : list view_case;       (* ViewFromChunks(chunks, off, size) *)
   i_reads : list read_case;       (* NewChunkReaderAtFromClient(ViewFromChunks(chunks,0,MaxInt64), fileSize).ReadAt *)
   i_streams : list stream_case;   (* StreamContent(chunks, off, size) into a bytes.Buffer *)
+  i_xviews : list view_case;      (* ViewFromChunks on windows whose offset+size exceeds MaxInt64 *)
+  i_readall : list N;             (* ReadAll(masterClient, chunks) *)
+  i_csr : list csr_case;          (* ChunkStreamReader call sequences *)
   i_compacted : list chunk;       (* CompactFileChunks(nonManifestChunks of chunks) *)
   i_garbage : list chunk;
+  i_call_keep : list chunk;       (* CompactFileChunks(chunks), manifest chunks included *)
+  i_call_garb : list chunk;
   i_man_chunks : list chunk;      (* doMaybeManifestize(chunks, factor, mergeIntoManifest) *)
   i_man_saved : mstore;           (* what saveFunc was given, decoded *)
   i_man_vis : list visible_interval  (* NonOverlappingVisibleIntervals of the manifestized list *)
@@ -71,6 +81,47 @@ Definition source_of (store : list (N * list N)) : chunk_source :=
 
 Definition positions (n : N) : list N := map N.of_nat (seq 0 (N.to_nat n)).
 
+(* ---------- ChunkStreamReader: the model run and the ideal reader ---------- *)
+Definition obs_eqb (a b : csr_obs) : bool :=
+  match a, b with
+  | ObsRead o e, ObsRead o' e' => all2 N.eqb o o' && Bool.eqb e e'
+  | ObsSeek p e, ObsSeek p' e' => (p =? p')%Z && Bool.eqb e e'
+  | ObsPanic, ObsPanic => true
+  | _, _ => false
+  end.
+(* the harness stops a sequence at the first panic *)
+Fixpoint csr_model (src : chunk_source) (views : list chunk_view) (ops : list csr_op) (s : csr) : list csr_obs :=
+  match ops with
+  | [] => []
+  | OpRead n :: r => match csr_read src views s n with
+                     | CsrOk o e s' => ObsRead o e :: csr_model src views r s'
+                     | CsrPanic => [ObsPanic]
+                     end
+  | OpSeek off wh :: r => let '(pos, err, s') := csr_seek src views s off wh in
+                          ObsSeek pos err :: csr_model src views r s'
+  end.
+(* an io.ReadSeeker over [content]: Read returns the next bytes and io.EOF when fewer than asked are
+   left; Seek moves the position and fails beyond the end *)
+Definition seek_target (total pos off : Z) (wh : N) : Z :=
+  match wh with 0 => off | 1 => (pos + off)%Z | _ => (total + off)%Z end.
+Fixpoint csr_ideal (content : list N) (ops : list csr_op) (pos : Z) : list csr_obs :=
+  match ops with
+  | [] => []
+  | OpRead n :: r =>
+      let out := firstn n (skipn (Z.to_nat pos) content) in
+      ObsRead out (Nat.ltb (length out) n) :: csr_ideal content r (pos + Z.of_nat (length out))%Z
+  | OpSeek off wh :: r =>
+      let t := seek_target (Z.of_nat (length content)) pos off wh in
+      ObsSeek t (Z.of_nat (length content) <? t)%Z :: csr_ideal content r t
+  end.
+(* finding 1: the sequence seeks to the end of the content or beyond *)
+Fixpoint csr_seeks_end (total : Z) (ops : list csr_op) (pos : Z) : bool :=
+  match ops with
+  | [] => false
+  | OpRead n :: r => csr_seeks_end total r (Z.min total (pos + Z.of_nat n))
+  | OpSeek off wh :: r => let t := seek_target total pos off wh in (total <=? t)%Z || csr_seeks_end total r t
+  end.
+
 (* ---------- model side ---------- *)
 Definition data_chunks (l : list chunk) : list chunk := filter (fun c => negb (c_manifest c)) l.
 
@@ -80,12 +131,16 @@ Definition corr (c : case) : bool :=
   (if i_err c then true else
    let full := view_from_visibles vis 0 max_int64 in
    let src := source_of (k_store c) in
-   forallb (fun vc => all2 view_eqb (view_from_chunks (k_fuel c) (k_ms c) (k_chunks c) (vw_off vc) (vw_size vc))
-                           (vw_views vc)) (i_views c) &&
+   forallb (fun vc => all2 view_eqb (view_from_chunks_w (k_fuel c) (k_ms c) (k_chunks c) (vw_off vc) (vw_size vc))
+                           (vw_views vc)) (i_views c ++ i_xviews c) &&
+   all2 N.eqb (read_all src (k_fuel c) (k_ms c) (k_chunks c)) (i_readall c) &&
+   forallb (fun q => all2 obs_eqb (csr_model src full (cq_ops q) csr_new) (cq_obs q)) (i_csr c) &&
+   (let '(keep, garb) := compact_file_chunks (k_fuel c) (k_ms c) (k_chunks c) in
+    all2 chunk_eqb keep (i_call_keep c) && all2 chunk_eqb garb (i_call_garb c)) &&
    forallb (fun rc => let r := read_at src full (k_file_size c) (rd_buf rc) (rd_off rc) in
                       all2 N.eqb (rr_buf r) (rd_out rc) && (rr_n r =? rd_n rc) && Bool.eqb (rr_eof r) (rd_eof rc))
            (i_reads c) &&
-   forallb (fun sc => all2 N.eqb (stream_content src (k_fuel c) (k_ms c) (k_chunks c) (st_off sc) (st_size sc))
+   forallb (fun sc => all2 N.eqb (stream_content_w src (k_fuel c) (k_ms c) (k_chunks c) (st_off sc) (st_size sc))
                            (st_out sc)) (i_streams c) &&
    (let '(keep, garb) := compact_file_chunks 1 [] (data_chunks (k_chunks c)) in
     all2 chunk_eqb keep (i_compacted c) && all2 chunk_eqb garb (i_garbage c)) &&
@@ -108,7 +163,8 @@ Fixpoint views_sorted (prev : N) (ws : list chunk_view) : bool :=
 
 Definition in_chunks (c : chunk) (l : list chunk) : bool := existsb (chunk_eqb c) l.
 
-Definition prop (c : case) : bool :=
+(* everything except the two calls with a known finding *)
+Definition prop_base (c : case) : bool :=
   if i_err c then true else
   let flat := k_flat c in
   let fs := k_file_size c in
@@ -117,12 +173,12 @@ Definition prop (c : case) : bool :=
   (* visible intervals: sorted, disjoint, non-empty; lookup = last writer *)
   vis_sorted 0 (i_vis c) &&
   forallb (fun p => osrc_eqb (src_of_visibles (i_vis c) p) (overlay_src flat p)) ps &&
-  (* views tile exactly the covered bytes of the window *)
+  (* views tile exactly the covered bytes of the window (windows beyond MaxInt64 included) *)
   forallb (fun vc =>
     views_sorted 0 (vw_views vc) &&
     forallb (fun p => osrc_eqb (src_of_views (vw_views vc) p)
                         (if (vw_off vc <=? p) && (p <? vw_off vc + vw_size vc) then overlay_src flat p else None)) ps)
-    (i_views c) &&
+    (i_views c ++ i_xviews c) &&
   (* reads: bytes = overlay, zeros in holes up to the file size, nothing else touched *)
   forallb (fun rc =>
     let len := N.of_nat (length (rd_buf rc)) in
@@ -133,13 +189,19 @@ Definition prop (c : case) : bool :=
                       (if i <? n then overlay src flat (rd_off rc + i) else nth (N.to_nat i) (rd_buf rc) 0))
             (positions len))
     (i_reads c) &&
-  (* streams: exactly the requested range, byte for byte the overlay, zeros in holes *)
+  (* streams: exactly the requested range, byte for byte the overlay, zeros in holes; a size of
+     MaxInt64 or a range that ends beyond MaxInt64 means "to the end" *)
   forallb (fun sc =>
-    let stop := if st_size sc =? max_int64 then total_size (k_chunks c) else st_off sc + st_size sc in
+    let stop := if (st_size sc =? max_int64) || (max_int64 <? st_off sc + st_size sc)
+                then total_size (k_chunks c) else st_off sc + st_size sc in
     all2 N.eqb (st_out sc)
          (map (fun i => overlay src flat (st_off sc + i)) (positions (stop - st_off sc))))
     (i_streams c) &&
-  (* compaction keeps the content and loses no chunk *)
+  (* ReadAll: the overlay from 0 to the end of the content, nothing after it *)
+  (let e := N.of_nat (length (i_readall c)) in
+   all2 N.eqb (i_readall c) (map (overlay src flat) (positions e)) &&
+   forallb (fun p => (p <? e) || osrc_eqb (overlay_src flat p) None) ps) &&
+  (* compaction (manifests separated first, as the callers do) keeps the content and loses no chunk *)
   (let d := data_chunks (k_chunks c) in
    Nat.eqb (length (i_compacted c) + length (i_garbage c)) (length d) &&
    forallb (fun x => in_chunks x (i_compacted c) || in_chunks x (i_garbage c)) d &&
@@ -148,10 +210,52 @@ Definition prop (c : case) : bool :=
   (* manifest conversion keeps the content *)
   forallb (fun p => osrc_eqb (src_of_visibles (i_man_vis c) p) (overlay_src flat p)) ps.
 
+(* a ChunkStreamReader behaves like an io.ReadSeeker over the overlay of [0, TotalSize) *)
+Definition content_of (c : case) : list N :=
+  map (overlay (source_of (k_store c)) (k_flat c)) (positions (total_size (k_flat c))).
+Definition csr_ok (c : case) (q : csr_case) : bool :=
+  all2 obs_eqb (cq_obs q) (csr_ideal (content_of c) (cq_ops q) 0%Z).
+(* the garbage of CompactFileChunks(whole list) holds nothing that is visible: no manifest chunk, and no
+   data chunk that wins a position *)
+Definition call_ok (c : case) : bool :=
+  forallb (fun g => negb (c_manifest g)) (i_call_garb c) &&
+  forallb (fun p => match overlay_src (k_flat c) p with
+                    | Some (f, _) => negb (existsb (fun g => c_fid g =? f) (i_call_garb c))
+                    | None => true
+                    end) (positions (k_file_size c + 2)).
+
+(* the finding a failing call falls under (None: not explained).  Finding 0: the views do not tile
+   [0, TotalSize) — a hole before, between or after them (the latter only with a zero-size chunk
+   beyond the last data byte) *)
+Definition full_views (c : case) : list chunk_view :=
+  view_from_chunks_w (k_fuel c) (k_ms c) (k_chunks c) 0 max_int64.
+Definition csr_excuse (c : case) (q : csr_case) : option N :=
+  if negb (views_gapless 0 (full_views c) && (csr_total (full_views c) =? total_size (k_flat c))) then Some 0
+  else if csr_seeks_end (Z.of_N (total_size (k_flat c))) (cq_ops q) 0%Z then Some 1
+  else None.
+Definition call_excuse (c : case) : option N :=
+  if existsb c_manifest (k_chunks c) then Some 2 else None.
+
+Definition failing (c : case) : list (option N) :=
+  if i_err c then [] else
+  map (csr_excuse c) (filter (fun q => negb (csr_ok c q)) (i_csr c)) ++
+  (if call_ok c then [] else [call_excuse c]).
+
+Definition prop (c : case) : bool :=
+  prop_base c && match failing c with [] => true | _ => false end.
+
+(* Some k only when the base oracles hold and EVERY failing call is explained by a finding *)
+Definition trig (c : case) : option N :=
+  if negb (prop_base c) then None else
+  match failing c with
+  | [] => None
+  | x :: r => if forallb (fun y => match y with Some _ => true | None => false end) (x :: r) then x else None
+  end.
+
 Definition check (c : case) : outcome :=
   {| o_corr := corr c;
      o_prop := prop c;
-     o_trig := None;
+     o_trig := trig c;
      o_nontrivial := negb (i_err c) && (1 <? N.of_nat (length (i_vis c))) |}.
 
 Definition summarize_cases (l : list case) : summary := summarize check l.
